@@ -269,7 +269,11 @@ var rR32 = RuleRef{Name: "R32", Doc: "the kind of every reply is the one the com
 			nCond++
 			var proved bool
 			// first the arity flow (which argument counts can reach the site, through flags, closures and helpers), then the prover
-			if mask, ok := arity.at(s.In); ok {
+			mask, ok := arity.at(s.In)
+			if !ok {
+				mask, ok = arity.at(s.At) // the reply is made in a helper outside the family: judged where the executor calls it
+			}
+			if ok {
 				if need == "absent" {
 					proved = mask&^0b111 == 0
 				} else {
@@ -979,6 +983,7 @@ type arityFlow struct {
 	exec   *ssa.Function
 	cmd    *ssa.Parameter
 	in     map[*ssa.BasicBlock]uint16
+	edge   map[[2]*ssa.BasicBlock]uint16
 	entry  map[*ssa.Function]uint16
 	family map[*ssa.Function]bool
 }
@@ -986,7 +991,7 @@ type arityFlow struct {
 const arityAll = uint16(0b1111111110) // an executor is never called with an empty vector
 
 func (c *C) newArityFlow(exec *ssa.Function, cmd *ssa.Parameter) *arityFlow {
-	a := &arityFlow{c: c, exec: exec, cmd: cmd, in: map[*ssa.BasicBlock]uint16{}, entry: map[*ssa.Function]uint16{}, family: map[*ssa.Function]bool{}}
+	a := &arityFlow{c: c, exec: exec, cmd: cmd, in: map[*ssa.BasicBlock]uint16{}, edge: map[[2]*ssa.BasicBlock]uint16{}, entry: map[*ssa.Function]uint16{}, family: map[*ssa.Function]bool{}}
 	var add func(f *ssa.Function, depth int)
 	add = func(f *ssa.Function, depth int) {
 		if f == nil || a.family[f] || len(f.Blocks) == 0 || depth > 3 {
@@ -999,7 +1004,7 @@ func (c *C) newArityFlow(exec *ssa.Function, cmd *ssa.Parameter) *arityFlow {
 		for _, b := range f.Blocks {
 			for _, in := range b.Instrs {
 				if ci, ok := in.(ssa.CallInstruction); ok {
-					if cf := callee(ci); cf != nil && firstParty(cf) && cf.Pkg == exec.Pkg && a.c.Facts.ExecNames[cf] == nil {
+					if cf := callee(ci); cf != nil && firstParty(cf) && origin(cf).Pkg == exec.Pkg && a.c.Facts.ExecNames[cf] == nil {
 						add(cf, depth+1)
 					}
 				}
@@ -1008,7 +1013,7 @@ func (c *C) newArityFlow(exec *ssa.Function, cmd *ssa.Parameter) *arityFlow {
 	}
 	add(exec, 0)
 	a.entry[exec] = arityAll
-	for iter := 0; iter < 6; iter++ {
+	for iter := 0; iter < 12; iter++ {
 		changed := false
 		for f := range a.family {
 			if a.run(f) {
@@ -1103,10 +1108,17 @@ func (a *arityFlow) run(f *ssa.Function) bool {
 				t, fl := a.filter(br.Cond, m, f, 0)
 				set(b.Succs[0], t)
 				set(b.Succs[1], fl)
+				if b.Succs[0] == b.Succs[1] {
+					a.edge[[2]*ssa.BasicBlock{b, b.Succs[0]}] |= t | fl
+				} else {
+					a.edge[[2]*ssa.BasicBlock{b, b.Succs[0]}] |= t
+					a.edge[[2]*ssa.BasicBlock{b, b.Succs[1]}] |= fl
+				}
 				continue
 			}
 			for _, sc := range b.Succs {
 				set(sc, m)
+				a.edge[[2]*ssa.BasicBlock{b, sc}] |= m
 			}
 		}
 		if !changed {
@@ -1133,24 +1145,49 @@ func (a *arityFlow) filter(cond ssa.Value, m uint16, f *ssa.Function, depth int)
 			if v := a.cellValue(x.X, f); v != nil {
 				return a.filter(v, m, f, depth+1)
 			}
+			// rec.given where rec is a local record variable
+			if fa, ok := x.X.(*ssa.FieldAddr); ok && isBoolType(x.Type()) {
+				if al, ok := fa.X.(*ssa.Alloc); ok {
+					// a record filled field by field in this function, or stored whole from a helper's result
+					if sv := singleStore(al); sv != nil {
+						if tm, fm, ok := a.fieldTruth(sv, fa.Field, m, f, depth+1); ok {
+							return tm, fm
+						}
+					}
+				}
+			}
 		}
 	case *ssa.Phi:
 		// the value form of a && b / a || b: edges that carry a constant contribute it, the others their own condition
+		// a constant edge contributes the argument counts with which that edge is taken (a flag set in the arm of an
+		// arity switch is true exactly for that arm's counts)
 		var tm, fm uint16
-		for _, e := range x.Edges {
+		for i, e := range x.Edges {
+			em := m
+			if i < len(x.Block().Preds) {
+				// an edge that has not been reached (yet) contributes nothing; the fixpoint comes back when it has
+				em = m & a.edge[[2]*ssa.BasicBlock{x.Block().Preds[i], x.Block()}]
+			}
 			if k, ok := e.(*ssa.Const); ok && k.Value != nil {
 				if k.Value.ExactString() == "true" {
-					tm |= m
+					tm |= em
 				} else {
-					fm |= m
+					fm |= em
 				}
 				continue
 			}
-			et, ef := a.filter(e, m, f, depth+1)
+			et, ef := a.filter(e, em, f, depth+1)
 			tm |= et
 			fm |= ef
 		}
 		return tm, fm
+	case *ssa.Field:
+		// a boolean field of a small record that carries the decision (countArg{n, given})
+		if isBoolType(x.Type()) {
+			if tm, fm, ok := a.fieldTruth(x.X, x.Field, m, f, depth+1); ok {
+				return tm, fm
+			}
+		}
 	case *ssa.Parameter:
 		// a boolean parameter that every call inside the family binds to the same condition on the length
 		if !isBoolType(x.Type()) || f == a.exec {
@@ -1904,3 +1941,132 @@ var rR20k = RuleRef{Name: "R20k", Doc: "every operand of a multi-key command is 
 	c.Count("R20k_operand_loops", n)
 	c.Min("R20k_operand_loops", 3)
 }}
+
+// fieldTruth: rec is a record value (a helper's result, a parameter bound at the call sites, a local copy); the argument
+// counts with which its boolean field `field` is true / false. ok is false when the record's origin is not understood.
+func (a *arityFlow) fieldTruth(rec ssa.Value, field int, m uint16, f *ssa.Function, depth int) (tm, fm uint16, ok bool) {
+	if depth > 8 {
+		return 0, 0, false
+	}
+	switch x := rec.(type) {
+	case *ssa.UnOp:
+		if x.Op == token.MUL {
+			if al, isAl := x.X.(*ssa.Alloc); isAl {
+				// a record literal built in place: the store into the field (none: the zero value, false)
+				if sv := singleStore(al); sv != nil {
+					return a.fieldTruth(sv, field, m, f, depth+1)
+				}
+				stored := false
+				if al.Referrers() != nil {
+					for _, r := range *al.Referrers() {
+						fa, isFA := r.(*ssa.FieldAddr)
+						if !isFA || fa.Field != field || fa.Referrers() == nil {
+							continue
+						}
+						for _, rr := range *fa.Referrers() {
+							if st, isSt := rr.(*ssa.Store); isSt && st.Addr == ssa.Value(fa) {
+								stored = true
+								bm := m & a.in[st.Block()]
+								t, fl := a.filter(st.Val, bm, f, depth+1)
+								if k, isC := st.Val.(*ssa.Const); isC && k.Value != nil {
+									if k.Value.ExactString() == "true" {
+										t, fl = bm, 0
+									} else {
+										t, fl = 0, bm
+									}
+								}
+								tm |= t
+								fm |= fl
+							}
+						}
+					}
+				}
+				if !stored {
+					return 0, m, true
+				}
+				return tm, fm, true
+			}
+			if v := a.cellValue(x.X, f); v != nil {
+				return a.fieldTruth(v, field, m, f, depth+1)
+			}
+		}
+	case *ssa.Phi:
+		all := true
+		for _, e := range x.Edges {
+			t, fl, ok2 := a.fieldTruth(e, field, m, f, depth+1)
+			if !ok2 {
+				all = false
+			}
+			tm |= t
+			fm |= fl
+		}
+		return tm, fm, all
+	case *ssa.Parameter:
+		idx := -1
+		for i, p := range f.Params {
+			if p == x {
+				idx = i
+			}
+		}
+		if idx < 0 || f == a.exec {
+			return 0, 0, false
+		}
+		any, all := false, true
+		for g := range a.family {
+			for _, b := range g.Blocks {
+				for _, in := range b.Instrs {
+					ci, isCall := in.(ssa.CallInstruction)
+					if !isCall || a.calleeOf(ci) != f || idx >= len(ci.Common().Args) {
+						continue
+					}
+					any = true
+					t, fl, ok2 := a.fieldTruth(ci.Common().Args[idx], field, arityAll, g, depth+1)
+					if !ok2 {
+						all = false
+					}
+					tm |= t
+					fm |= fl
+				}
+			}
+		}
+		return m & tm, m & fm, any && all
+	case *ssa.Call, *ssa.Extract:
+		var call *ssa.Call
+		ri := 0
+		if c2, isCall := x.(*ssa.Call); isCall {
+			call = c2
+		} else if ex := x.(*ssa.Extract); ex != nil {
+			call, _ = ex.Tuple.(*ssa.Call)
+			ri = ex.Index
+		}
+		if call == nil {
+			return 0, 0, false
+		}
+		h := a.calleeOf(call)
+		if h == nil || !a.family[h] {
+			return 0, 0, false
+		}
+		any, all := false, true
+		for _, b := range h.Blocks {
+			ret, isRet := b.Instrs[len(b.Instrs)-1].(*ssa.Return)
+			if !isRet || ri >= len(ret.Results) {
+				continue
+			}
+			any = true
+			bm := a.in[b]
+			if bm == 0 {
+				continue // this return is not reached with any argument count seen so far (the fixpoint comes back)
+			}
+			for _, rv := range retResults(ret)[ri] {
+				t, fl, ok2 := a.fieldTruth(rv, field, bm, h, depth+1)
+				if !ok2 {
+					all = false
+				}
+				tm |= t
+				fm |= fl
+			}
+		}
+		return m & tm, m & fm, any && all
+	}
+	return 0, 0, false
+}
